@@ -31,9 +31,14 @@ type PropConfig struct {
 }
 
 type BoundedCheck struct {
-	Name string `json:"name"`
-	Cmd  string `json:"cmd"`
-	Bound string `json:"bound"`
+	Name     string `json:"name"`
+	Pkg      string `json:"pkg"`      // package directory relative to the repository
+	Test     string `json:"test"`     // test file relative to /verif
+	Run      string `json:"run"`      // -run pattern
+	Bound    string `json:"bound"`    // human-readable bound (quick tier)
+	Env      string `json:"env,omitempty"`          // KEY=VALUE for the quick tier
+	EnvThorough string `json:"env_thorough,omitempty"` // KEY=VALUE for the thorough tier
+	BoundThorough string `json:"bound_thorough,omitempty"`
 }
 
 func main() {
@@ -131,7 +136,7 @@ func runProperty(id, repo, verif string, thorough bool, only string, dump bool) 
 			fmt.Printf("   goal %s\n", o.Goal)
 		}
 	}
-	sc := solveConfig{outDir: outDir, quickMs: 3000, fullMs: 10000, parallel: 12, axioms: axioms}
+	sc := solveConfig{outDir: outDir, quickMs: 3000, fullMs: 25000, parallel: 12, axioms: axioms}
 	if thorough {
 		sc.fullMs = 60000
 		sc.agree = true
@@ -139,6 +144,9 @@ func runProperty(id, repo, verif string, thorough bool, only string, dump bool) 
 	}
 	rep.results = dischargeAll(obls, sc)
 	rep.stretch = stretch
+	for _, bc := range cfg.Bounded {
+		rep.runBounded(bc, thorough)
+	}
 	return rep.finish()
 }
 
